@@ -780,4 +780,115 @@ theorem specBswap32_bytes (x : BitVec 32) (j : Nat) (hj : j < 4) :
     | (iterate 32 (rcases i with _ | i; · simp (decide := true))
        omega)
 
+
+/-! ### mixed argument types (usual arithmetic conversions) -/
+
+theorem commW_ge_left (wn wk : Nat) : wn ≤ commW wn wk :=
+  Nat.le_trans (promW_ge wn) (Nat.le_max_left _ _)
+theorem commW_ge_right (wn wk : Nat) : wk ≤ commW wn wk :=
+  Nat.le_trans (promW_ge wk) (Nat.le_max_right _ _)
+theorem commW_pos (wn wk : Nat) : 0 < commW wn wk :=
+  Nat.lt_of_lt_of_le (promW_pos wn) (Nat.le_max_left _ _)
+
+/-- conversion to a type at least as wide keeps the value of a non-negative operand -/
+theorem conv_toNat {w : Nat} (sg : Bool) (x : BitVec w) (W : Nat) (hW : w ≤ W) (h : NonNeg sg x) :
+    (conv sg x W).toNat = x.toNat := by
+  have hlt : x.toNat < 2 ^ W := Nat.lt_of_lt_of_le x.isLt (Nat.pow_le_pow_right (by omega) hW)
+  unfold conv
+  cases sg with
+  | false => simp [BitVec.toNat_setWidth, Nat.mod_eq_of_lt hlt]
+  | true =>
+    simp only [if_true, BitVec.signExtend_eq_setWidth_of_msb_false (msb_false_of_nonneg h),
+      BitVec.toNat_setWidth, Nat.mod_eq_of_lt hlt]
+
+/-- the converted operand is non-negative in the target type: either the target is strictly wider
+    than the source, or it is the source's own (signed) type -/
+theorem conv_nonneg {w : Nat} (S sg : Bool) (x : BitVec w) (W : Nat) (hW : w ≤ W) (h : NonNeg sg x)
+    (hS : S = true → w < W ∨ (w = W ∧ sg = true)) : NonNeg S (conv sg x W) := by
+  intro hs
+  rw [conv_toNat sg x W hW h]
+  rcases hS hs with hlt | ⟨he, hsg⟩
+  · exact Nat.lt_of_lt_of_le x.isLt (Nat.pow_le_pow_right (by omega) (by omega))
+  · subst he; exact h hsg
+
+theorem commSg_left (wn : Nat) (sn : Bool) (wk : Nat) (sk : Bool) (h : commSg wn sn wk sk = true) :
+    wn < commW wn wk ∨ (wn = commW wn wk ∧ sn = true) := by
+  unfold commSg at h
+  unfold commW
+  unfold promW promSg at *
+  rw [Nat.max_def]
+  by_cases hn : wn < 32 <;> by_cases hk : wk < 32 <;> simp only [hn, hk, if_true, if_false] at h ⊢
+  · left; simp; omega
+  · left; split <;> omega
+  · by_cases e : wn = 32
+    · subst e; simp at h; right; simp [h]
+    · simp only [e, if_false] at h
+      have hlt : 32 < wn := by omega
+      simp only [hlt, if_true] at h
+      right; exact ⟨by split <;> omega, h⟩
+  · by_cases e : wn = wk
+    · subst e; simp at h; right; simp [h.1]
+    · simp only [e, if_false] at h
+      by_cases hlt : wk < wn
+      · simp only [hlt, if_true] at h
+        right; exact ⟨by split <;> omega, h⟩
+      · left; split <;> omega
+
+theorem commSg_right (wn : Nat) (sn : Bool) (wk : Nat) (sk : Bool) (h : commSg wn sn wk sk = true) :
+    wk < commW wn wk ∨ (wk = commW wn wk ∧ sk = true) := by
+  unfold commSg at h
+  unfold commW
+  unfold promW promSg at *
+  rw [Nat.max_def]
+  by_cases hn : wn < 32 <;> by_cases hk : wk < 32 <;> simp only [hn, hk, if_true, if_false] at h ⊢
+  · left; simp; omega
+  · by_cases e : 32 = wk
+    · subst e; simp at h; right; simp [h]
+    · simp only [e, if_false] at h
+      right; exact ⟨by split <;> omega, by simpa [hk] using h⟩
+  · left; split <;> omega
+  · by_cases e : wn = wk
+    · subst e; simp at h; right; simp [h.2]
+    · simp only [e, if_false] at h
+      by_cases hlt : wk < wn
+      · left; split <;> omega
+      · simp only [hlt, if_false] at h
+        right; exact ⟨by split <;> omega, h⟩
+
+/-- **div_ceil with mixed argument types**: computed in `decltype(n + k)` after the usual
+    arithmetic conversions, the result is `⌈n/k⌉` for every `n ≥ 0`, `k > 0` of every pair of types -/
+theorem divCeilMixed_eq {wn wk : Nat} (sn : Bool) (n : BitVec wn) (sk : Bool) (k : BitVec wk)
+    (hn : NonNeg sn n) (hk : NonNeg sk k) (hk0 : k.toNat ≠ 0) :
+    IsCeilDiv (divCeilMixed sn n sk k).toNat n.toNat k.toNat ∧
+    NonNeg (commSg wn sn wk sk) (divCeilMixed sn n sk k) := by
+  have cn := conv_nonneg (commSg wn sn wk sk) sn n (commW wn wk) (commW_ge_left wn wk) hn
+    (commSg_left wn sn wk sk)
+  have ck := conv_nonneg (commSg wn sn wk sk) sk k (commW wn wk) (commW_ge_right wn wk) hk
+    (commSg_right wn sn wk sk)
+  have tn := conv_toNat sn n (commW wn wk) (commW_ge_left wn wk) hn
+  have tk := conv_toNat sk k (commW wn wk) (commW_ge_right wn wk) hk
+  have h := divCeilCore_toNat (commW_pos wn wk) (commSg wn sn wk sk) _ _ cn ck (by rw [tk]; exact hk0)
+  rw [tn, tk] at h
+  have hd : divCeilMixed sn n sk k = divCeilCore (commSg wn sn wk sk) (conv sn n (commW wn wk))
+      (conv sk k (commW wn wk)) := rfl
+  rw [hd, h]
+  refine ⟨ceil_spec n.toNat k.toNat (by omega), ?_⟩
+  intro hs
+  rw [h]
+  have := ceil_le_self n.toNat k.toNat (by omega)
+  have := cn hs
+  rw [tn] at this
+  omega
+
+/-- **round_up with mixed argument types**: the least multiple of `k` that is `≥ n`, whenever it is
+    representable in `decltype(n + k)` -/
+theorem roundUpMixed_eq {wn wk : Nat} (sn : Bool) (n : BitVec wn) (sk : Bool) (k : BitVec wk)
+    (hn : NonNeg sn n) (hk : NonNeg sk k) (hk0 : k.toNat ≠ 0) (q : Nat)
+    (hq : IsCeilDiv q n.toNat k.toNat) (hrep : q * k.toNat < 2 ^ commW wn wk) :
+    (roundUpMixed sn n sk k).toNat = q * k.toNat := by
+  obtain ⟨⟨h1, h2⟩, _⟩ := divCeilMixed_eq sn n sk k hn hk hk0
+  have e : (divCeilMixed sn n sk k).toNat = q := Nat.le_antisymm (h2 q hq.1) (hq.2 _ h1)
+  unfold roundUpMixed
+  rw [BitVec.toNat_mul, e, conv_toNat sk k (commW wn wk) (commW_ge_right wn wk) hk, Nat.mod_eq_of_lt hrep]
+
 end TlxVerif.C20
